@@ -312,8 +312,8 @@ def bg_clone_checks(ctx, cases, model_lines_):
         except Exception:
             return [("a roller and its clone rolling in turn (background_rotation build): the harness did not return normally (%s)" % g[:120],
                      {"case_line": ln})]
-        if iv == [b"err", 1] or mv[-1][0] != 0:
-            continue
+        if iv == [b"err", 1] or any(e[0] != 0 for e in mv):
+            continue            # a roll that fails: the background build leaves the renamed file behind (not compared)
         ran += 1
         if iv[0] != 0:
             return [("background_rotation build: a roll through a CLONE of the roller began its rotation while the original's "
